@@ -306,6 +306,13 @@ func opHandshake(w *World, s *Step) (string, string) {
 	}
 	w.nontriv = true
 	w.stats.inc("two_party_handshakes")
+	w.stats.inc("probe_suite_" + su.String())
+	if s.Rand != nil && s.Rand.Chunk > 0 {
+		w.stats.inc("fault_rand_short_reads")
+	}
+	if s.Rand != nil && s.Rand.PatReads > 0 {
+		w.stats.inc("fault_rand_rejection_burst")
+	}
 	return "ok", abs
 }
 
@@ -355,6 +362,15 @@ func opKDF(w *World, s *Step) (string, string) {
 	}
 	w.nontriv = true
 	w.stats.inc("synthetic_derivations")
+	w.stats.inc("probe_suite_" + su.String())
+	for _, n := range []int{len(s.Nonce), len(s.Secret)} {
+		if n%64 == 0 {
+			w.stats.inc("probe_length_multiple_of_hash_block_64")
+		}
+		if n == 1 || n == 512 {
+			w.stats.inc("probe_length_at_domain_edge_1_or_512")
+		}
+	}
 	return "ok", abs
 }
 
